@@ -2,8 +2,12 @@ package props
 
 import (
 	"fmt"
+	"path/filepath"
 	"reflect"
+	"runtime"
 	"strings"
+
+	"github.com/cockroachdb/errors/errbase"
 
 	"github.com/cockroachdb/errors"
 	"github.com/cockroachdb/redact"
@@ -34,9 +38,46 @@ func checkReport(e error) string {
 		}
 	}
 	// message
+	// the innermost recorded source, from an independent walk (deepest
+	// layer of the cause chain with a stack, its innermost-caller frame)
 	prefix := ""
-	if f, l, _, ok := errors.GetOneLineSource(e); ok {
-		prefix = fmt.Sprintf("%s:%d: ", f, l)
+	var inner *errors.ReportableStackTrace
+	for c := e; c != nil; c = errors.UnwrapOnce(c) {
+		if s := errors.GetReportableStackTrace(c); s != nil && len(s.Frames) > 0 {
+			inner = s
+		}
+	}
+	if inner != nil {
+		f := inner.Frames[len(inner.Frames)-1]
+		prefix = fmt.Sprintf("%s:%d: ", filepath.Base(f.AbsPath), f.Lineno)
+	}
+	// native stacks: the reported frames are those of the captured program counters
+	for i, n := range L {
+		sp, ok := n.(interface{ StackTrace() errbase.StackTrace })
+		if !ok {
+			continue
+		}
+		rs := errors.GetReportableStackTrace(n)
+		pcs := sp.StackTrace()
+		if rs == nil || len(rs.Frames) != len(pcs) {
+			return fail("native-frames-count", "layer %d captured %d program counters but reports %d frames", i, len(pcs), func() int {
+				if rs == nil {
+					return 0
+				}
+				return len(rs.Frames)
+			}())
+		}
+		for k, pc := range pcs {
+			fn := runtime.FuncForPC(uintptr(pc) - 1)
+			if fn == nil {
+				continue
+			}
+			file, line := fn.FileLine(uintptr(pc) - 1)
+			fr := rs.Frames[len(pcs)-1-k]
+			if fr.AbsPath != file || fr.Lineno != line {
+				return fail("native-frames", "layer %d frame %d reports %s:%d but the captured program counter is at %s:%d", i, k, fr.AbsPath, fr.Lineno, file, line)
+			}
+		}
 	}
 	verbose := redact.Sprintf("%+v", e).Redact().StripMarkers()
 	head := prefix + verbose + "\n-- report composition:\n"
